@@ -397,6 +397,29 @@ structure CustomMatcher where
   name : Text
   path : Text
 
+/-- a Go value handed over as `any` where its DYNAMIC type decides what happens to it (`validateJSON`,
+`validateYAML`): a `string`, a `[]byte`, or a value of any other type (identified by a number; what
+`json.Marshal` / `yaml.Marshal` make of it is a parameter) -/
+inductive Dyn
+  | str (s : Text)
+  | bytes (b : Text)
+  | other (id : Nat)
+deriving Repr, DecidableEq
+
+/-- `snaps.JSONConfig` -/
+structure JSONConfig where
+  width : Int
+  indent : Text
+  sortKeys : Bool
+deriving Repr, DecidableEq
+
+/-- `pretty.Options` as go-snaps builds it (`Prefix` is never set) -/
+structure PrettyOpts where
+  width : Int
+  indent : Text
+  sortKeys : Bool
+deriving Repr, DecidableEq
+
 /-- everything a Match* call can read or change -/
 structure St where
   env : Generated.Env
